@@ -318,6 +318,50 @@ def check_compiled_subset_dependencies(model, rep, rule='R02.6'):
         raise AnalysisError(f'only {n} compiled fields found')
 
 
+FIELD_EXEMPT = {('ArrayFromTuple', 'shape'): 'metadata of the wrapped tuple item, checked at run time, not evaluated',
+                ('WithDerivative', 'derivative'): 'used only when differentiating to the stored target, never evaluated',
+                ('RavelIndex', 'na'): 'ia*nb+ib does not need the length of the first axis'}
+
+
+def check_fields_announced(model, rep, rule='R02.6'):
+    """Every Array-typed constructor field of a node is reachable from its `dependencies` (arguments, isconstant, block placement
+    and loop analysis are computed from the dependencies; a field that is evaluated but not announced hides its arguments)."""
+    E = model.cls('evaluable:Evaluable')
+    n = 0
+    for c in model.subclasses(E, strict=True):
+        deps = model.lookup(c, 'dependencies')
+        if deps is None or deps[1].func is None:
+            continue
+        announced = set()
+        todo = [src(deps[1].func.node)]
+        seen = set()
+        while todo:
+            t = todo.pop()
+            for tok in _self_attrs(t):
+                announced.add(tok)
+                if tok in seen:
+                    continue
+                seen.add(tok)
+                pm = model.lookup(c, tok)
+                if pm is not None and pm[1].func is not None and tok != 'dependencies':
+                    todo.append(src(pm[1].func.node))
+        fields = []
+        for k in reversed(model.mro(c)):
+            fields += [(nm, ann, k) for nm, ann, _ in k.fields]
+        for nm, ann, owner in fields:
+            if 'Array' not in ann:
+                continue
+            n += 1
+            if (c.name, nm) in FIELD_EXEMPT or (owner.name, nm) in FIELD_EXEMPT:
+                continue
+            ok = nm in announced
+            rep.ob(rule, f'{c.key}.dependencies', f'{c.module.relpath}:{deps[1].func.lineno}', ok, f'field {nm}: {ann} is an announced dependency' if ok else
+                   f'{c.name} has the array-valued field `{nm}` but `dependencies` (defined in {deps[0].name}) does not announce it: its arguments are hidden, so the node can be taken for a constant and cached across calls',
+                   statement=f'field {nm} announced')
+    if n < 100:
+        raise AnalysisError(f'only {n} array-typed fields found')
+
+
 def _self_attrs(text):
     import re
     return set(re.findall(r'self\.([A-Za-z_][A-Za-z0-9_]*)', text))
@@ -346,6 +390,17 @@ def check_expression_arity(model, rep):
         raise AnalysisError(f'only {n} _compile_expression/dependencies pairs found')
 
 
+def check_dependency_registration(model, rep, rule='R02.9'):
+    """Every builder.compile(e) call records the edge origin -> e BEFORE looking at the cache of compiled evaluables: the
+    constant-intermediate cache and the rerun filter are computed from these edges, also for the second consumer of e."""
+    f = model.func('evaluable:_BlockTreeBuilder.compile')
+    reg = [s for s in f.body if isinstance(s, ast.Expr) and src(s.value).replace(' ', '') == 'self._evaluable_deps.setdefault(self._origin,util.IDSet()).add(evaluable)']
+    look = [s for s in f.body if isinstance(s, ast.If) and '_compiled_cache.get(evaluable)' in src(s.test)]
+    ok = len(reg) == 1 and len(look) == 1 and reg[0].lineno < look[0].lineno
+    rep.ob(rule, f.key, f.where(reg[0]) if reg else f.where(), ok, 'the dependency edge is recorded unconditionally, before the compiled-cache lookup' if ok else
+           'the dependency edge origin -> evaluable is recorded only on a cache miss (or not at all): a constant intermediate consumed a second time is neither cached nor recomputed on reruns', statement='edge-before-lookup')
+
+
 def run(model, rep, tier):
     rep.explanation = (
         'R02.1 def-use of every emitted in-place operation (array_fill_zeros/add_at/iadd/imul/copy and destinations handed to compile_with_out): the destination is the out parameter, a view of it, '
@@ -362,12 +417,19 @@ def run(model, rep, tier):
     rep.rule('R02.5', 'operands are parenthesised')
     rep.rule('R02.6', 'compiled fields are announced as dependencies')
     rep.rule('R02.7', '_compile_expression arity equals the number of dependencies')
+    rep.rule('R02.8', 'parallel configuration: shared allocation / lock pairing (= R16.4)')
+    rep.rule('R02.9', 'dependency edges are recorded before the compiled-cache lookup')
     check_destinations(model, rep)
     check_zero_fill(model, rep)
     check_who_may_call(model, rep)
     check_printer(model, rep)
     check_compiled_subset_dependencies(model, rep)
+    check_fields_announced(model, rep)
     check_expression_arity(model, rep)
+    check_dependency_registration(model, rep)
+    from rules.c16 import check_shared_alloc
+    from rules.c03 import _Rename
+    check_shared_alloc(model, _Rename(rep, {'R16.4': 'R02.8'}))
     rep.require('R02.1', 15)
     rep.require('R02.2', 7)
     rep.require('R02.3', 8)
